@@ -43,6 +43,17 @@ impl Iterator for CountIter {
         self.pos += 1;
         r
     }
+    // an honest size_hint, as the iterators of Vec, arrays and ranges have: what is left is known exactly
+    // (an operator that trusted it instead of calling next() would show in the number of next() calls)
+    fn size_hint(&self) -> (usize, Option<usize>) {
+        match self.inf {
+            Some(_) => (usize::MAX, None),
+            None => {
+                let rem = self.xs.len().saturating_sub(self.pos);
+                (rem, Some(rem))
+            }
+        }
+    }
 }
 
 fn inner_vec(m: usize, x: usize) -> Vec<usize> {
